@@ -30,7 +30,7 @@ ASSUMPTIONS = ["values/extensions are carried verbatim (their letter case is not
 
 QUICK = ["8.3.0", "score_2.0.0", "8.1.0"]
 ALL = hedenv.BUNDLED
-DUP_KINDS = ["duplicate_tag", "duplicate_group", "duplicate_among_same_base"]
+DUP_KINDS = ["duplicate_tag", "duplicate_group", "duplicate_among_same_base", "duplicate_tag_value_case"]
 PLACEMENT_KINDS = ["toplevel_group_nested_twin", "toplevel_group_nested", "two_toplevel_tags_in_group",
                    "taggroup_tag_at_top", "onset_extra_group", "duration_two_groups"]
 
